@@ -5,7 +5,7 @@
 EXTENDS Names, GenBase
 
 CONSTANTS Mode,        \* "strings" | "shapes" | "octets" | "spell" | "spellshapes" | "escapes" | "crowd"   (C03)
-                       \* "names" | "texts" | "etexts" | "pairs" | "octpairs" | "crowdhelpers" | "crowdpairs"  (C19)
+                       \* "names" | "texts" | "etexts" | "pairs" | "octpairs" | "crowdhelpers" | "crowdpairs" | "rawtexts" | "rawpairs"  (C19)
           N,           \* size bound of the universe (meaning depends on Mode)
           Shard, NShards
 
@@ -98,6 +98,28 @@ CrowdPair(a, r) == CASE r = 1 -> <<a, a>>
                      [] r = 6 -> <<a, ReplaceLabel(Tail(a), Len(a) - 1)>>   \* nothing in common
                      [] OTHER -> <<a, ReplaceLabel(Tail(a), Len(a) \div 2)>> \* the lower half in common
 
+
+\* Modes "rawtexts", "rawpairs" (C19): texts whose octets outside ASCII stand for themselves (Names!RawPresent) - what a
+\* zone file in UTF-8 or Latin-1 holds.  The helpers compare and fold OCTETS ("ASCII-case-insensitively", "lower-casing
+\* ASCII letters"): to a reader of runes 0xC3 0x89 / 0xC3 0xA9 are one letter in two cases, 0xE2 0x84 0xAA (KELVIN SIGN)
+\* folds to k, 0xC5 0xBF (LONG S) to s, and every octet that is not UTF-8 is the same U+FFFD.  Uni: such octet strings
+\* next to the ASCII letters they would fold to.
+Uni == << <<195, 137>>, <<195, 169>>, <<128>>, <<129>>, <<255>>, <<226, 132, 170>>, <<107>>, <<75>>, <<197, 191>>, <<115>>, <<83>>,
+          <<196, 176>>, <<105>>, <<73>>, <<196, 177>>, <<206, 163>>, <<207, 131>>, <<207, 130>>, <<239, 191, 189>>, <<194, 128>> >>
+\* a name holding u: alone, as the lower label of two, inside the lower label, as the upper label under another lower one
+UniName(u, pos) == CASE pos = 1 -> << u >>
+                     [] pos = 2 -> << u, <<122>> >>
+                     [] pos = 3 -> << <<120>> \o u \o <<121>>, <<122>> >>
+                     [] OTHER   -> << <<119>>, u >>
+\* v = <<1, i, j, pos>>: Uni[i] against Uni[j] at the same place;  v = <<2, c, k, 0>>: the octet c against Flip20(c), its
+\* successor, and the octet differing in bit 0x80, all written raw
+RawOther(c, k) == CASE k = 1 -> Flip20(c) [] k = 2 -> (c + 1) % 256 [] OTHER -> (c + 128) % 256
+RawPairOf(q) == IF q[1] = 1 THEN << UniName(Uni[q[2]], q[4]), UniName(Uni[q[3]], q[4]) >>
+                ELSE << << <<120, q[2], 121>>, <<122>> >>, << <<120, RawOther(q[2], q[3]), 121>>, <<122>> >> >>
+\* rawtexts: every valid text of <= N symbols over ASCII letters, the separator, escapes and raw octets of the kinds above
+RSym == << <<97>>, <<75>>, <<46>>, <<92, 46>>, <<128>>, <<195, 137>>, <<226, 132, 170>>, <<92, 50, 48, 48>> >>
+RTextOf(q) == Concat([i \in 1..Len(q) |-> RSym[q[i]]])
+
 -----------------------------------------------------------------------------
 Init ==
   \/ Mode = "strings" /\ v \in UNION { [1..k -> 1..Len(Sym)] : k \in 0..N } /\ InShard(v)
@@ -114,6 +136,9 @@ Init ==
   \/ Mode = "crowd"   /\ v \in CrowdCases(N) /\ CrowdShard(v)
   \/ Mode = "crowdhelpers" /\ v \in CrowdCases(N) /\ CrowdShard(v) /\ ValidName(CrowdName(v))
   \/ Mode = "crowdpairs"   /\ \E c \in CrowdCases(N), r \in 1..7 : v = c \o <<r>> /\ CrowdShard(c) /\ ValidName(CrowdName(c))
+  \/ Mode = "rawtexts" /\ v \in UNION { [1..k -> 1..Len(RSym)] : k \in 1..N } /\ InShard(v) /\ Parse(RTextOf(v)).st = "ok"
+  \/ Mode = "rawpairs" /\ (\E i \in 1..Len(Uni), j \in 1..Len(Uni), pos \in 1..4 : v = <<1, i, j, pos>> /\ ((i + j) % NShards = Shard))
+  \/ Mode = "rawpairs" /\ (\E c \in 0..255, k \in 1..3 : v = <<2, c, k, 0>> /\ (c % NShards = Shard))
 Next == UNCHANGED v
 
 \* classification only (finding keys): how many leading labels of a refused name are themselves fine, i.e. may have been
@@ -131,13 +156,20 @@ StringVector(s) ==
    \* the parent name (context of the compressed-pack sequence: parent, name, name again over one compression map)
    ptext |-> IF p.st = "ok" /\ Len(p.labels) >= 1 THEN Present(Tail(p.labels)) ELSE <<>>,
    pvalid |-> IF p.st = "ok" /\ Len(p.labels) >= 1 THEN ValidName(Tail(p.labels)) ELSE FALSE,
-   lead |-> Lead(p.labels), plead |-> IF p.st = "ok" /\ Len(p.labels) >= 1 THEN Lead(Tail(p.labels)) ELSE 0]
+   lead |-> Lead(p.labels), plead |-> IF p.st = "ok" /\ Len(p.labels) >= 1 THEN Lead(Tail(p.labels)) ELSE 0,
+   \* the same name in the other letter case (context of the sequence flipped parent, name, flipped name, name again)
+   ftext |-> IF p.st = "ok" /\ p.fq /\ ValidName(p.labels) THEN Present(OtherCaseName(p.labels)) ELSE <<>>,
+   fwire |-> IF p.st = "ok" /\ p.fq /\ ValidName(p.labels) THEN EncName(OtherCaseName(p.labels)) ELSE <<>>,
+   fptext |-> IF p.st = "ok" /\ p.fq /\ ValidName(p.labels) /\ Len(p.labels) >= 1 THEN Present(OtherCaseName(Tail(p.labels))) ELSE <<>>]
 
 NameVector(n) ==   \* a name given abstractly: expected text, wire and validity
   [kind |-> "name", labels |-> n, valid |-> ValidName(n), text |-> Present(n), wire |-> EncName(n),
    wirelen |-> WireLen(n),
    ptext |-> IF Len(n) >= 1 THEN Present(Tail(n)) ELSE <<>>, pvalid |-> IF Len(n) >= 1 THEN ValidName(Tail(n)) ELSE FALSE,
-   lead |-> Lead(n), plead |-> IF Len(n) >= 1 THEN Lead(Tail(n)) ELSE 0]
+   lead |-> Lead(n), plead |-> IF Len(n) >= 1 THEN Lead(Tail(n)) ELSE 0,
+   ftext |-> IF ValidName(n) THEN Present(OtherCaseName(n)) ELSE <<>>,
+   fwire |-> IF ValidName(n) THEN EncName(OtherCaseName(n)) ELSE <<>>,
+   fptext |-> IF ValidName(n) /\ Len(n) >= 1 THEN Present(OtherCaseName(Tail(n))) ELSE <<>>]
 
 
 \* Mode "texts" (C19): every valid text over the property's alphabet, in ANY escape spelling
@@ -159,6 +191,12 @@ HelperVector(n) ==
    canon |-> CanonicalSpec(t),
    rel |-> IF n = <<>> THEN <<>> ELSE Sub(t, 1, Len(t) - 1),
    relfq |-> IF n = <<>> THEN FALSE ELSE IsFqdnSpec(Sub(t, 1, Len(t) - 1))]
+
+\* the pair in the raw spelling (rawpairs); the expectations are those of the label sequences, as above
+PairVectorRaw(a, b) ==
+  [kind |-> "pair", a |-> RawPresent(a), b |-> RawPresent(b), common |-> CommonSuffix(a, b),
+   sub |-> CommonSuffix(a, b) = Len(a),
+   joined |-> IF a = <<>> THEN <<>> ELSE RawPresent(a \o b)]
 
 PairVector(a, b) ==
   LET ta == Present(a)  tb == Present(b) IN
@@ -182,4 +220,6 @@ Out ==
     [] Mode = "texts"   -> Emit(HelperVectorT(TextOf(v)))
     [] Mode = "octpairs" -> Emit(PairVector(v[1], v[2]))
     [] Mode = "pairs"   -> Emit(PairVector(v[1], v[2]))
+    [] Mode = "rawtexts" -> Emit(HelperVectorT(RTextOf(v)))
+    [] Mode = "rawpairs" -> LET pr == RawPairOf(v) IN Emit(PairVectorRaw(pr[1], pr[2]))
 =============================================================================
